@@ -243,19 +243,23 @@ def story_delete(ro_id, refs):
     return _body('roStoryDelete', ro_id, *[ref_elem('storyID', r) for r in refs])
 
 
-def story_send(ro_id, sid, head=(), body=(), post=(), attrib=None):
+def story_send(ro_id, sid, head=(), body=(), post=(), attrib=None, body_index=None):
     """head/post: elements around the storyBody; body: children of storyBody
-    (p / storyItem / other)."""
+    (p / storyItem / other).  body_index: position of storyBody among ALL children of
+    roStorySend (0 = before roID and storyID); default: after head."""
     b = E('roStorySend', attrib=attrib)
-    b.append(T('roID', ro_id))
+    kids = [T('roID', ro_id)]
     sidtag = ref_elem('storyID', sid)
     if sidtag is not None:
-        b.append(sidtag)
-    for h in head:
-        b.append(h)
-    b.append(E('storyBody', *body))
-    for p in post:
-        b.append(p)
+        kids.append(sidtag)
+    kids += list(head)
+    sb = E('storyBody', *body)
+    rest = kids + list(post)
+    if body_index is None:
+        body_index = len(kids)
+    rest.insert(min(body_index, len(rest)), sb)
+    for k in rest:
+        b.append(k)
     return b
 
 
